@@ -209,3 +209,31 @@ func PinnedMapValueAddr(name string) *Case {
 	c.Feature("skipcopy", "true")
 	return c
 }
+
+// PinnedArrayBuild: arrays as sources at positions where the target slice is created by the conversion itself
+// (method result, map value, behind a pointer) - the working counterpart of the known finding F-C02-array-assign.
+func PinnedArrayBuild(name string) *Case {
+	c := &Case{Name: name, Root: "vcase/" + name}
+	src := &Package{Path: "src", Name: "src"}
+	tgt := &Package{Path: "tgt", Name: "tgt"}
+	conv := &Package{Path: "conv", Name: "conv"}
+	inS := &Decl{Pkg: src, Name: "Item", Under: Struct(F("V", Basic("int")), F("S", Basic("string")))}
+	inT := &Decl{Pkg: tgt, Name: "Item", Under: Struct(F("V", Basic("int")), F("S", Basic("string")))}
+	arrS := &Decl{Pkg: src, Name: "Triple", Under: Array(3, Named(inS))}
+	src.Decls = []*Decl{inS, arrS}
+	tgt.Decls = []*Decl{inT}
+	c.Pkgs = []*Package{src, tgt, conv}
+	cv := simpleConv(conv, "Converter", "struct", nil,
+		method1("M0", Array(3, Basic("int")), Slice(Basic("int"))),
+		method1("M1", Map(Basic("string"), Array(2, Basic("string"))), Map(Basic("string"), Slice(Basic("string")))),
+		method1("M2", Ptr(Array(2, Named(inS))), Ptr(Slice(Named(inT)))),
+		method1("M3", Named(arrS), Slice(Named(inT))),
+		method1("M4", Array(0, Basic("int")), Slice(Basic("int"))),
+		method1("M5", Map(Basic("int"), Named(arrS)), Map(Basic("int"), Slice(Ptr(Named(inT))))))
+	cv.Spec = &vref.Spec{Seed: 1, NValues: 16, Monitors: []string{"value", "intact", "alias", "mutate"}}
+	c.Convs = []*Converter{cv}
+	c.Patterns = []string{"./conv"}
+	c.Feature("tag", "pinned")
+	c.Feature("shape", "array-build")
+	return c
+}
